@@ -188,9 +188,10 @@ class SMCAlgorithm(Generic[R], Algorithm[R]):
 
         target: Target[R] = args[0]
         algorithm = ChangeTarget(self, target)
-        key, sub_key = jrandom.split(key)
         particle_collection = algorithm.run_csmc(key, v)
-        particle = particle_collection.sample_particle(sub_key)
+        # the density of `v` is estimated at the RETAINED particle (conditional SMC stacks
+        # it last), not at a freshly resampled one
+        particle = particle_collection.get_particle(-1)
         log_density_estimate = (
             particle.get_score()
             - particle_collection.get_log_marginal_likelihood_estimate()
